@@ -18,6 +18,7 @@ BUILD = os.environ.get("VERIF_BUILD", os.path.join(ROOT, "build"))
 EVID = os.environ.get("VERIF_EVID", os.path.join(ROOT, "evidence"))
 REPLAYS = os.environ.get("VERIF_REPLAYS", os.path.join(ROOT, "replays"))
 NCPU = os.cpu_count() or 4
+THOROUGH_SCALE = int(os.environ.get("VERIF_THOROUGH_SCALE", "4"))  # multiplies every rounds_thorough of the registry
 
 sys.path.insert(0, ROOT)
 from checks.registry import CHECKS  # noqa: E402
@@ -239,6 +240,8 @@ def check(prop, tier, seed, verbose=False):
     for run in runs:
         nproc = run.get("procs_" + tier, run.get("procs", 4))
         rounds = run.get("rounds_" + tier, run.get("rounds", 100))
+        if tier == "thorough" and ("rounds_thorough" in run):
+            rounds *= THOROUGH_SCALE
         for p in range(nproc):
             jobs.append((outs[(run.get("src", spec["src"]), run["variant"])], run, p, rounds))
     timeout_s = spec.get("timeout_" + tier, 300 if tier == "quick" else 3600)
